@@ -65,6 +65,14 @@ func c08(args []string) error {
 
 	for i := 0; i < g.n; i++ {
 		cs := genC07(r)
+		// strand symmetry for every corrected model with and without gamma
+		rcBoost := r.Intn(8) == 0
+		if rcBoost {
+			if cs.model <= 1 {
+				cs.model = 2 + r.Intn(5)
+			}
+			cs.gamma = r.Intn(2) == 0
+		}
 		satur := r.Intn(12) == 0
 		if satur { // dozens of exactly saturated pairs: the bookkeeping the workers share for them
 			cs = saturatedC08(r)
@@ -111,6 +119,9 @@ func c08(args []string) error {
 		kindSel := r.Intn(10)
 		if kindSel == 9 {
 			kindSel = 8
+		}
+		if rcBoost && !satur {
+			kindSel = 4
 		}
 		if satur {
 			kindSel = []int{6, 6, 8}[r.Intn(3)] // thread counts, or sequence ranges over the many undefined pairs
